@@ -578,10 +578,13 @@ theorem wds_ondemand_reconnect_answers (idx : Index) (hnd : (idx.map (·.name)).
     simp [hget, hdiff]
 
 /-- **... and removes what vanished.**  A subscribed name that resolves to nothing in the index
-    (neither a resource name nor an address; in particular it is no alias of a found workload) is listed
-    in `removed_resources`, and the client - whatever version it retained - holds nothing for it. -/
+    (neither a resource name nor an indexed address) and is not listed as the alias of any address
+    (the generator filters the aliases of what it found out of `removed`: an address listed in
+    `Aliases()` that a lookup does not find - a host-network pod's IP - is not reported as removed)
+    is listed in `removed_resources`, and the client - whatever version it retained - holds nothing for it. -/
 theorem wds_ondemand_reconnect_removes_vanished (idx : Index) (w : WR) (hw : w.wildcard = false)
-    (sub : List String) (retained : Held) (n : String) (hn : n ∈ sub) (hgone : (idx.lookup n).isEmpty = true) :
+    (sub : List String) (retained : Held) (n : String) (hn : n ∈ sub) (hgone : (idx.lookup n).isEmpty = true)
+    (hnoalias : ∀ y ∈ idx, y.alias ≠ n) :
     let g := wdsGenerate idx w { isReq := true, sub := sub, retained := retained }
     ∃ resp nn, pushDelta .addr (g.newNames.getD w.names) g.out = some (resp, nn) ∧
       n ∈ resp.removed ∧ get (applyDelta retained resp) n = none := by
@@ -592,7 +595,10 @@ theorem wds_ondemand_reconnect_removes_vanished (idx : Index) (w : WR) (hw : w.w
     intro y hy
     have hl : idx.lookup n = [] := by simpa using hgone
     have := (List.filter_eq_nil_iff.mp hl) y hy
-    simpa using this
+    have hname : y.name ≠ n := by
+      intro e
+      exact this (by simp [e])
+    exact ⟨hname, hnoalias y hy⟩
   have hrm : n ∈ (missingOf idx addresses).filter
       (fun a => !((foundOf idx addresses).map (·.alias)).contains a) := by
     apply List.mem_filter.mpr
@@ -649,6 +655,6 @@ example :
     ∃ resp nn, pushDelta .addr (g.newNames.getD ({} : WR).names) g.out = some (resp, nn) ∧
       "c" ∈ resp.removed ∧ get (applyDelta [("a", 1), ("b", 1), ("c", 1)] resp) "c" = none :=
   wds_ondemand_reconnect_removes_vanished exIdx {} rfl ["a", "b", "c"] [("a", 1), ("b", 1), ("c", 1)] "c"
-    (by decide) (by decide)
+    (by decide) (by decide) (by decide)
 
 end IstioModel.C05
